@@ -301,7 +301,9 @@ WHOLE_THM = {
     "C16": "Theorems/C16b: tool_second_run_partial (end to end: a second run into the directory the first run filled computes the "
            "same result and leaves every file unchanged; for coherent foreign class paths), getApi_ignores_output_dir.",
     "C18": "Theorems/C18b: alias_table_monotone, alias_lookup_local (aliases[name] changes only through expressions that "
-           "contribute under that short name), counterexamples same_short_name_interferes, substring_package_test.",
+           "contribute under that short name), alias_table_ignores_skipped (expressions that are no alias candidates leave the "
+           "table - and with C08b.analysis_reads_alias_sets the analysis of every other module - unchanged), counterexamples "
+           "same_short_name_interferes, substring_package_test.",
 }
 for _p, _t in WHOLE_THM.items():
     TEXT[_p]["text"] = TEXT[_p]["text"] + WHOLE + _t
